@@ -735,6 +735,29 @@ def n4(ck: Check) -> None:
                         if isinstance(t, ast.Name):
                             muts[t.id] = kind
         module_mutables[m.name] = muts
+    # state kept in an attribute of a function object (`helper.last = (net, table)`) lives as long as the module
+    for m in prog.repo.modules.values():
+        fnames = {s_.name for s_ in m.tree.body if isinstance(s_, ast.FunctionDef)}
+        for fm_ in prog.models():
+            if fm_.f.module is not m:
+                continue
+            for a_ in own_walk(fm_.f.node):
+                tg_ = None
+                if isinstance(a_, (ast.Assign, ast.AugAssign)):
+                    for t_ in (a_.targets if isinstance(a_, ast.Assign) else [a_.target]):
+                        if isinstance(t_, ast.Attribute) and isinstance(t_.value, ast.Name) and t_.value.id in fnames \
+                                and t_.value.id not in fm_.f.params() \
+                                and not any(isinstance(y_, ast.Name) and y_.id == t_.value.id and isinstance(y_.ctx, ast.Store)
+                                            for y_ in own_walk(fm_.f.node)):
+                            tg_ = t_
+                elif isinstance(a_, ast.Call) and callee_name(a_) == "setattr" and a_.args and isinstance(a_.args[0], ast.Name) \
+                        and a_.args[0].id in fnames:
+                    tg_ = a_.args[0]
+                if tg_ is not None:
+                    ck.ob("N4", fm_, fm_.f.stmt_of(a_), False,
+                          f"`{text(tg_)[:50]}` keeps state in an attribute of a function object: it survives between calls and "
+                          f"diagrams, so an answer can depend on what the process did before (e.g. a table computed for a "
+                          f"network object that was edited since)", key=f"function attribute in {fm_.f.name}")
     class_mutables: dict[str, dict[str, str]] = {}
     for m in prog.repo.modules.values():
         for c_ in ast.walk(m.tree):
